@@ -171,11 +171,20 @@ def apply_op(r, op, pool, tmpdir, inputs_log=None):
     return r
 
 
+class OpFailed(Exception):
+    def __init__(self, k, op, exc):
+        super().__init__('%s at step %d: %s' % (op, k, repr(exc)[:200]))
+        self.k, self.op, self.exc = k, op, exc
+
+
 def run_real(ops, pool, tmpdir, inputs_log=None):
     r = scenes.build_fast(pool.sides, pool.patch)
     snaps = [snapshot(r)]
-    for op in ops:
-        r = apply_op(r, op, pool, tmpdir, inputs_log)
+    for k, op in enumerate(ops):
+        try:
+            r = apply_op(r, op, pool, tmpdir, inputs_log)
+        except Exception as e:      # a legal history step that the implementation refuses
+            raise OpFailed(k, op, e)
         snaps.append(snapshot(r))
     return r, snaps
 
